@@ -58,8 +58,11 @@ def send_events(role: str) -> t.List[sess.Event]:
     return ev
 
 
-def explore(role: str, max_sends: int) -> t.Dict[str, t.Any]:
-    stats = {"states": 0, "transitions": 0, "validated": 0, "viol": {}, "outcomes": set(), "samples": []}
+STATE_CAP = {"quick": 30_000, "thorough": 200_000}  # about 4x the state count of the pinned tree per role: a space that has stopped closing is cut here
+
+
+def explore(role: str, max_sends: int, cap: int = 200_000) -> t.Dict[str, t.Any]:
+    stats = {"states": 0, "transitions": 0, "validated": 0, "viol": {}, "outcomes": set(), "samples": [], "capped": False}
 
     def flag(key: str, what: str, hist: t.List[t.Any]) -> None:
         e = stats["viol"].get(key)
@@ -75,9 +78,12 @@ def explore(role: str, max_sends: int) -> t.Dict[str, t.Any]:
         seen = {(A.freeze(init), A.freeze(init), g0)}
         frontier = [(init, copy.deepcopy(init), g0, [list(e) for e in prehist])]
         stats["states"] += 1
-        while frontier:
+        while frontier and not stats["capped"]:
             nxt = []
             for s, twin, (stream, drained, nsend), hist in frontier:
+                if stats["states"] > cap:
+                    stats["capped"] = True  # reported as INCOMPLETE (exhaustive = false); never a violation
+                    break
                 pending = len(stream) - drained
                 evs: t.List[t.Any] = [("drain", a, -1) for a in AMOUNTS]
                 if nsend < max_sends:
@@ -369,11 +375,15 @@ def long_drain_runs(role: str) -> t.Tuple[int, t.Dict[str, t.Dict[str, t.Any]]]:
 def run(ctx: evid.Ctx) -> None:
     max_sends = 3 if ctx.tier == "thorough" else 2
     for role in ("client", "server"):
-        st = explore(role, max_sends if role == "client" else max(2, max_sends - 1) if ctx.tier == "quick" else max_sends)
+        st = explore(role, max_sends if role == "client" else max(2, max_sends - 1) if ctx.tier == "quick" else max_sends, STATE_CAP[ctx.tier])
         ctx.add("states", st["states"])
         ctx.add("transitions", st["transitions"])
         ctx.add("traces_validated_against_impl", st["validated"])
         ctx.add(f"{role}_states", st["states"])
+        if st["capped"]:
+            ctx.exhaustive = False
+            ctx.note(f"{role}_INCOMPLETE", f"state cap {STATE_CAP[ctx.tier]} reached: the space did not close (a session that differs after every drain?); violations found so far are reported")
+            print(f"INCOMPLETE: {role} search stopped at the state cap ({st['states']} states); see evidence")
         ctx.distinct |= {(role,) + o for o in st["outcomes"]}
         for k, e in st["viol"].items():
             ctx.violation(k, e["what"], {"role": role, "history": e["history"]}, e["count"])
